@@ -401,6 +401,28 @@ func init() {
 	wrap("strings.HasSuffix", func(fr *frame, cs []schar, pat string, args []value) value {
 		return len(pat) <= len(cs) && fr.i.x.semiIndex(cs[len(cs)-len(pat):], pat, 0) == 0
 	})
+	{
+		prevSplit := symModels["strings.Split"]
+		symModels["strings.Split"] = func(fr *frame, args []value) value {
+			x := fr.i.x
+			if sv, isSym := args[0].(sym); isSym {
+				if _, semi := x.semiOf(args[0]); !semi {
+					if sep, ok := args[1].(string); ok && sep != "" && x.checking() {
+						// the separator cannot occur on any input of this path: one field
+						if r, _ := x.query(x.tb.Contains(sv.t, x.tb.StrC(sep)), false); r == smt.Unsat {
+							return []value{args[0]}
+						}
+					}
+					x.abandon("strings.Split on a symbolic string that may contain the separator")
+				}
+			}
+			if prevSplit != nil {
+				return prevSplit(fr, args)
+			}
+			x.abandon("strings.Split on symbolic arguments")
+			return nil
+		}
+	}
 	wrap("strings.Split", func(fr *frame, cs []schar, pat string, args []value) value {
 		x := fr.i.x
 		if pat == "" {
